@@ -35,5 +35,7 @@ misses led to the strengthening described below the table. Everything is under `
 notes.md, meta.json).
 
 '''
-open(p, "w").write(s[:i] + head + table + "\n\n" + "@@STRENGTHENING@@\n")
+j = s.find("**Strengthening after the first wave**", i)
+tail = s[j:] if j >= 0 else "@@STRENGTHENING@@\n"
+open(p, "w").write(s[:i] + head + table + "\n\n" + tail)
 print(table)
